@@ -137,6 +137,68 @@ done:
   return 1;
 }
 
+/* creuse seed n : ONE compression object (libjpeg API) used for a seeded sequence of n images that differ in component count (1, 3, 4 and
+ * up to 10 with JCS_UNKNOWN), progressive / optimised / arithmetic / baseline mode and size; jpeg_set_defaults etc. are called anew for
+ * every image, as documented.  Every image must come out decodable without warnings by a fresh decompressor and with the declared size;
+ * sanitizers watch the object's reuse of its own tables and scripts. */
+static int c17_creuse(toks_t *t)
+{
+  unsigned long long rs = (unsigned long long)tll(t, 1) * 0x9E3779B97F4A7C15ULL + 1ULL; int n = (int)tl(t, 2), im, y, x, k;
+  struct jpeg_compress_struct c; my_err_t e; unsigned char *jp = NULL; unsigned long jn = 0; JSAMPLE *row = NULL; const char *bad = NULL; static char msg[200];
+  c.err = my_err_init(&e);
+  jpeg_create_compress(&c);
+  if (setjmp(e.jb)) { printf("R err compress %d\n", e.code); printf("O fail creuse: compressor rejected a valid request in a sequence on one object (code %d)\n", e.code); jpeg_destroy_compress(&c); free(jp); free(row); return 1; }
+  printf("R seq");
+  for (im = 0; im < n && !bad; im++) {
+    int nc, w, h, mode, warn = 0, err = 0;
+    rs = c03_mix(rs); nc = (int)(rs % 6ULL); nc = nc == 0 ? 1 : nc == 1 ? 3 : nc == 2 ? 4 : nc == 3 ? 3 : nc == 4 ? 10 : 2;
+    rs = c03_mix(rs); w = 1 + (int)(rs % 40ULL); rs = c03_mix(rs); h = 1 + (int)(rs % 30ULL);
+    rs = c03_mix(rs); mode = (int)(rs % 5ULL);           /* 0 baseline, 1 optimised, 2 progressive, 3 arithmetic, 4 progressive arithmetic */
+    if (nc > 4 && mode != 2 && mode != 4) mode = (mode == 3) ? 4 : 2;   /* more than 4 components need a multi-scan script: only the progressive default makes one */
+    free(jp); jp = NULL; jn = 0;
+    jpeg_mem_dest(&c, &jp, &jn);
+    c.image_width = (JDIMENSION)w; c.image_height = (JDIMENSION)h; c.input_components = nc;
+    c.in_color_space = nc == 1 ? JCS_GRAYSCALE : nc == 3 ? JCS_RGB : nc == 4 ? JCS_CMYK : JCS_UNKNOWN;
+    jpeg_set_defaults(&c);
+    jpeg_set_quality(&c, 30 + (int)(rs >> 8) % 70, TRUE);
+    c.optimize_coding = mode == 1; c.arith_code = mode == 3 || mode == 4;
+    c.scan_info = NULL; c.num_scans = 0;
+    if (mode == 2 || mode == 4) jpeg_simple_progression(&c);
+    jpeg_start_compress(&c, TRUE);
+    row = (JSAMPLE *)realloc(row, (size_t)w * nc);
+    for (y = 0; y < h; y++) { JSAMPROW rp = row; for (x = 0; x < w * nc; x++) { rs = c03_mix(rs); row[x] = (JSAMPLE)((x * 3 + y * 5 + (int)(rs & 31ULL)) & 255); } jpeg_write_scanlines(&c, &rp, 1); }
+    jpeg_finish_compress(&c);
+    printf(" %d:%d:%lu", nc, mode, jn);
+    {
+      /* own decoder, fresh object */
+      struct jpeg_decompress_struct d; my_err_t ed; JSAMPLE *drow = NULL;
+      d.err = my_err_init(&ed);
+      jpeg_create_decompress(&d);
+      if (setjmp(ed.jb)) { err = ed.code; }
+      else {
+        jpeg_mem_src(&d, jp, jn);
+        jpeg_read_header(&d, TRUE);
+        if ((int)d.image_width != w || (int)d.image_height != h || d.num_components != nc) err = -2;
+        else {
+          d.out_color_space = d.jpeg_color_space;
+          jpeg_start_decompress(&d);
+          drow = (JSAMPLE *)malloc((size_t)d.output_width * d.output_components);
+          while (d.output_scanline < d.output_height) { JSAMPROW rp = drow; jpeg_read_scanlines(&d, &rp, 1); }
+          jpeg_finish_decompress(&d);
+          warn = (int)ed.nwarn;
+        }
+      }
+      jpeg_destroy_decompress(&d); free(drow);
+    }
+    if (err || warn) { snprintf(msg, sizeof(msg), "image %d of the sequence (%d components, mode %d, %dx%d): own decoder %s (%d)", im, nc, mode, w, h, err ? "fails" : "warns", err ? err : warn); bad = msg; }
+  }
+  (void)k;
+  printf("\n");
+  if (bad) printf("O fail creuse: %s\n", bad); else printf("O ok\n");
+  jpeg_destroy_compress(&c); free(jp); free(row);
+  return 1;
+}
+
 /* cparam fam seed */
 static int c17_cparam(toks_t *t)
 {
@@ -298,6 +360,7 @@ static int c17_xcoef(toks_t *t)
 
 static int dispatch_c17(toks_t *t)
 {
+  if (!strcmp(t->tok[0], "creuse") && t->n >= 3) return c17_creuse(t);
   if (!strcmp(t->tok[0], "rstrows") && t->n >= 5) return c17_rstrows(t);
   if (!strcmp(t->tok[0], "cparam") && t->n >= 3) return c17_cparam(t);
   if (!strcmp(t->tok[0], "xcoef") && t->n >= 7) return c17_xcoef(t);
